@@ -828,6 +828,6 @@ def rule_cachekey(ctx):
                             "it share the entry, so the second compilation returns the first file's result" % (t["callee_name"], bad), t["sp"]["file"], t["sp"]["line"])
             else:
                 res.inst(ikey, t["sp"]["file"], t["sp"]["line"], "ok", "key is the path parameter" if reaches_param else "key does not go through a path projection")
-    if n < 2:
+    if n < 1:
         raise AnalysisError("R-CACHEKEY: only %d cache lookups found in the driver (its stages look up and fill a cache)" % n)
     return res
